@@ -9,8 +9,7 @@ import Poulpy.Lemmas.Fft64Vmp
 import Poulpy.Lemmas.F64Mono
 import Poulpy.Lemmas.Fft64AvxAgree
 import Poulpy.Lemmas.Fft64AvxVmpNumeric
-import Poulpy.Lemmas.Fft64CnvPairNumeric
-import Poulpy.Lemmas.Fft64CnvConst
+import Poulpy.Lemmas.Fft64CnvConstSpec
 
 /-!
 # C07 — DFT-domain products equal exact negacyclic (bivariate) convolution
@@ -1783,5 +1782,21 @@ example : okOr (cnvPairwise avxOps 2 omg4 iomg4 2 0 1 1 (-1) (-1) [[4095, -4095,
 example : VmpDomain 2 1 τ50 (2 * 4096) (2 * 4096) ∧ LaneDomainAvx 2 1 τ50 (2 * 4096) (2 * 4096) :=
   ⟨(fft64_cnv_pairwise_domain_numeric 2 le_rfl (by norm_num) 1 le_rfl (by norm_num) 4096 4096 (by norm_num) (by norm_num)).1 (by unfold domBitsP; norm_num),
    (fft64_cnv_pairwise_domain_numeric 2 le_rfl (by norm_num) 1 le_rfl (by norm_num) 4096 4096 (by norm_num) (by norm_num)).2 (by unfold domBitsPA; norm_num)⟩
+
+/-- **`cnv_by_const_apply` on FFT64Ref = the specification with the `i64` wrap** (`Hal.cnvByConstCol w64`): wrapping every product
+and every partial sum equals wrapping the exact sum once; with `fft64avx_cnv_by_const_eq_ref` the same holds for FFT64Avx when all
+operands fit `i32` -/
+theorem fft64_cnv_by_const_matches_spec (K rs off : Nat) (a : Col) (b : List Int) (hK2 : 2 ≤ K)
+    (ha : ∀ l ∈ a, l.length = 2 * 2 ^ K) (ha0 : a.length ≠ 0) (hb0 : b.length ≠ 0) :
+    cnvByConst false K rs off a b = .ok (cnvByConstCol w64 (2 * 2 ^ K) rs off a b) := by
+  have h8 : ¬ (2 * 2 ^ K < 8) := by
+    have : 2 ^ 2 ≤ 2 ^ K := Nat.pow_le_pow_right (by norm_num) hK2
+    omega
+  exact cnvByConst_ref_matches_spec K rs off a b h8 ha ha0 hb0
+example : cnvByConst false 2 2 0 [[3000000000, 1, -3000000000, 5, 6, 7, 8, 9223372036854775807]] [3, -2] =
+    .ok (cnvByConstCol w64 8 2 0 [[3000000000, 1, -3000000000, 5, 6, 7, 8, 9223372036854775807]] [3, -2]) :=
+  fft64_cnv_by_const_matches_spec 2 2 0 _ _ le_rfl (by decide) (by decide) (by decide)
+example : cnvByConstCol w64 8 2 0 [[3000000000, 1, -3000000000, 5, 6, 7, 8, 9223372036854775807]] [3, -2] =
+    [[9000000000, 3, -9000000000, 15, 18, 21, 24, 9223372036854775805], [-6000000000, -2, 6000000000, -10, -12, -14, -16, 2]] := by decide +kernel
 
 end C07
